@@ -59,6 +59,12 @@ inductive FieldU where
   | named (name : String) (w bits : Nat)
   | reserved (w bits : Nat)
   | access (ty attr : Nat)
+  /-- ExtendedAccessField: `0x03 type attrib length` -/
+  | xaccess (ty attr len : Nat)
+  /-- Connection with a NameString (one segment) -/
+  | connName (seg : String)
+  /-- Connection with BufferData: `0x02 0x11 PkgLength(w) 0x0a len bytes` -/
+  | connBuf (w : Nat) (bytes : List UInt8)
   deriving Repr, Inhabited
 
 inductive Obj where
@@ -141,6 +147,9 @@ def encFieldU : FieldU → List UInt8
   | .named name w bits => segBytes name ++ encPkgLength bits w
   | .reserved w bits => 0x00 :: encPkgLength bits w
   | .access ty attr => [0x01, UInt8.ofNat ty, UInt8.ofNat attr]
+  | .xaccess ty attr len => [0x03, UInt8.ofNat ty, UInt8.ofNat attr, UInt8.ofNat len]
+  | .connName seg => 0x02 :: segBytes seg
+  | .connBuf w bytes => encPkg [0x02, 0x11] w ([0x0a, UInt8.ofNat bytes.length] ++ bytes)
 
 mutual
 def encObj : Obj → List UInt8
@@ -275,6 +284,10 @@ def declUnits (scope : Path) : List FieldU → Nat → Nat → Nat → Nat → N
     declUnits scope us (off + bits) acc lock upd (st.add (scope ++ [name]) s!"field:{off}:{bits}:{acc}:{lock}:{upd}")
   | .reserved _ bits :: us, off, acc, lock, upd, st => declUnits scope us (off + bits) acc lock upd st
   | .access ty _ :: us, off, _, lock, upd, st => declUnits scope us off (ty % 256) lock upd st
+  | .xaccess ty _ _ :: us, off, _, lock, upd, st => declUnits scope us off (ty % 256) lock upd st
+  -- a Connection changes neither the running offset nor the access type of the units that follow
+  | .connName _ :: us, off, acc, lock, upd, st => declUnits scope us off acc lock upd st
+  | .connBuf _ _ :: us, off, acc, lock, upd, st => declUnits scope us off acc lock upd st
 
 mutual
 def declObj (scope : Path) : Obj → NsSt → NsSt
